@@ -75,6 +75,17 @@ def findings():
           "is only detected when the remainder is exactly 0; the iteration continues through clipped rounding noise and returns non-orthogonal columns",
           reltol, "arnoldi(Dense([[2,1,0],[1,3,1],[0,1,4]]), first eigenvector from numpy eigh, max_iters=3)")
 
+    def absclip():
+        A = 1e-6 * np.array([[2., 1.], [1., 3.]])
+        Q, H, _ = arnoldi(ops.Dense(A), np.array([1., 1.]), max_iters=2, tol=1e-6)
+        Q = np.asarray(Q.to_dense()); H = np.asarray(H.to_dense())
+        rel = float(H[1, 0] / np.linalg.norm(H[:, 0]))
+        return np.abs(Q[:, 1]).max() == 0 and rel > 1e-3, f"Q[:,1] = {Q[:, 1].tolist()} although the first remainder is {rel:.3g} of ||A q_0|| (tol = 1e-6)"
+    probe("arnoldi_absolute_clip",
+          "the remainder is normalised only if its norm exceeds the ABSOLUTE tol/2: for an operator of small overall scale (||A|| <~ tol) the basis stops "
+          "after q_0 although the Krylov space is not exhausted (zero second column, A Q[:, :m] = Q H fails; gmres stalls at relative residual 0.14)",
+          absclip, "arnoldi(Dense(1e-6*[[2,1],[1,3]]), [1,1], max_iters=2, tol=1e-6)")
+
     def batch():
         w, U = np.linalg.eigh(S5)
         V = np.stack([np.array([1., -1., 2., 0.5, 1.5]), U[:, 0] + U[:, 1]], 1)
@@ -150,6 +161,12 @@ def run(ctx):
     if "arnoldi_clip_garbage" in present:      # pinned normalisation: tol = 0 with a zero remainder is 0/0 (region of that flag)
         avoided["exact_tol0"] = sum(1 for c in exact if c["tol"] == 0.0)
         exact = [c for c in exact if c["tol"] != 0.0]
+    # small-scale operators (1e-4 .. 1e-9) with the usual tolerances: region of arnoldi_absolute_clip, used when the flag is gone
+    small = [L.gen_small_scale(ctx.rng, nmax=min(nmax, 10)) for _ in range(ctx.budget(40, 240))]
+    if "arnoldi_absolute_clip" in present:
+        avoided["small_scale"] = len(small)
+        small = []
+    cases += small
     big = []
     for _ in range(ctx.budget(10, 50)):
         c = L.gen_case(ctx.rng, present, nmax=12, force=dict(n=int(ctx.rng.choice([30, 64, 100, 200])), kind="dense"))
@@ -163,7 +180,8 @@ def run(ctx):
     capped = "arnoldi_padding" not in present      # model variant: arnoldi_batch_capped when the flag is gone
     rfix = "arnoldi_reltol_first_step" not in present   # model variant: repaired stopping test
     cfix = "arnoldi_clip_garbage" not in present        # model variant: repaired normalisation
-    terms = [L.coq_case(cases[i], obs[i], capped, rfix, cfix) for i in idx]
+    afix = "arnoldi_absolute_clip" not in present       # model variant: breakdown threshold relative to ||A q_0||
+    terms = [L.coq_case(cases[i], obs[i], capped, rfix, cfix, afix) for i in idx]
     codes, err, maxdiff = eval_cases("c15", terms)
     if err:
         mism.append(dict(oracle_fail=False, harness_error=err))
@@ -187,7 +205,7 @@ def run(ctx):
             if bad:
                 mism.append(dict(oracle_fail=True, case=c, got={k: o.get(k) for k in ("ok", "err", "shapes", "H")}, failed_clauses=bad))
             if o.get("ok"):
-                for b, t in enumerate(L.coq_elem_cases(c, o, capped, rfix, cfix)):
+                for b, t in enumerate(L.coq_elem_cases(c, o, capped, rfix, cfix, afix)):
                     eterms.append(t); owner.append((ci, b))
         ecodes, eerr, _ = eval_cases("c15_elem", eterms)
         elem_compared = len(eterms)
@@ -201,7 +219,7 @@ def run(ctx):
     # exact stream: oracle + plain (gate-free) comparison with the model
     xobs = [L.run_impl(c) for c in exact]
     xok = [i for i, o in enumerate(xobs) if o.get("ok")]
-    xcodes, xerr, _ = eval_cases("c15_exact", [L.coq_case(exact[i], xobs[i], capped, rfix, cfix) for i in xok], fn="acodes_plain")
+    xcodes, xerr, _ = eval_cases("c15_exact", [L.coq_case(exact[i], xobs[i], capped, rfix, cfix, afix) for i in xok], fn="acodes_plain")
     if xerr:
         mism.append(dict(oracle_fail=False, harness_error=xerr))
     xbad = {xok[j] for j in (xcodes or {})}
@@ -235,7 +253,7 @@ def run(ctx):
         samples=[dict(kind=c["kind"], n=c["n"], cplx=c["cplx"], start=c["start"], batch=c["batch"], max_iters=c["max_iters"], tol=c["tol"], entry=c["entry"],
                       v=c["v"], parts=c["parts"]) for c in cases[:2]],
         mismatches=mism, findings=fnd,
-        extra=dict(compared_in_coq=len(idx), model_variant=("arnoldi_batch_capped" if capped else "arnoldi_batch") + f" rfix={rfix} cfix={cfix}", max_model_impl_difference=maxdiff, tolerance=1e-9, near_tie=hist.get(1, 0),
+        extra=dict(compared_in_coq=len(idx), model_variant=("arnoldi_batch_capped" if capped else "arnoldi_batch") + f" rfix={rfix} cfix={cfix} afix={afix}", max_model_impl_difference=maxdiff, tolerance=1e-9, near_tie=hist.get(1, 0),
                    noise_amplified_skipped=hist.get(2, 0), agree=hist.get(0, 0),
                    kind_histogram=kh, start_histogram=sh, max_iters_vs_n=mh,
                    breakdown_cases=sum(1 for c in cases if min(c["grades"]) < min(c["max_iters"], c["n"])),
@@ -264,7 +282,7 @@ def replay(ctx, payload):
         bad = L.oracle(c, o, present)
         cd = None
         if o.get("ok") and c["n"] <= 40:
-            codes, err, _ = eval_cases("c15_replay", [L.coq_case(c, o, "arnoldi_padding" not in present, "arnoldi_reltol_first_step" not in present, "arnoldi_clip_garbage" not in present)])
+            codes, err, _ = eval_cases("c15_replay", [L.coq_case(c, o, "arnoldi_padding" not in present, "arnoldi_reltol_first_step" not in present, "arnoldi_clip_garbage" not in present, "arnoldi_absolute_clip" not in present)])
             cd = err or (codes or {}).get(0, 0)
         print(f"replay C15: oracle failed clauses={bad} model comparison code={cd}")
         if bad or (isinstance(cd, int) and cd >= 3) or isinstance(cd, str):
